@@ -42,9 +42,19 @@ def tokens_impl(tools, sources):
     return [res.get(i, {"crash": "noresult"}) for i in range(len(sources))]
 
 
-def compare(tools, exe, sources):
+def compare(tools, exe, sources, chunk=4000):
     """Returns (n_compared, mismatches) where a mismatch is a dict describing
-    the first difference for one source."""
+    the first difference for one source.  Processed in chunks: the token lists of tens of
+    thousands of sources do not have to be in memory at once."""
+    if len(sources) > chunk:
+        n, mism = 0, []
+        for k in range(0, len(sources), chunk):
+            a, b = compare(tools, exe, sources[k:k + chunk], chunk)
+            for m in b:
+                m["i"] += k
+            n += a
+            mism += b
+        return n, mism
     impl = tokens_impl(tools, sources)
     rune_lists = []
     idx = []
